@@ -252,6 +252,7 @@ def reconnect_correspondence(chk, traces):
 
 
 def run(chk):
+    chk.build("Properties/C16.v")  # the two-session traces below are replayed in the compiled model
     api_close_sessions(chk)
     tr = reconnect_sessions(chk)
     reconnect_correspondence(chk, tr)
